@@ -75,3 +75,17 @@ func init() {
 		return 0
 	}
 }
+
+func init() {
+	checks["C11STEPS"] = func(tier string, seed int64) int {
+		tot := map[string]int{}
+		for i := 0; i < 300; i++ {
+			g := genSliceSteps(i, seed*100000+int64(i), 2+i%5)
+			for k, v := range g {
+				tot[k] += v
+			}
+		}
+		fmt.Println(tot)
+		return 0
+	}
+}
